@@ -211,6 +211,24 @@ def gen_wavelets(rng, tier):
     return out
 
 
+def gen_grid_modes(rng, tier):
+    """every interpolation x padding x align_corners combination, with sample positions outside [-1, 1]"""
+    out = []
+    for rep in range(1 if tier == 'quick' else 12):
+        for interp in ('bilinear', 'nearest', 'bicubic'):
+            for pad in ('zeros', 'border', 'reflection'):
+                for align in (False, True):
+                    c = opzoo.gen_grid(rng)
+                    if interp == 'bicubic':
+                        c['dim'], c['input'][0] = 2, 1
+                        c['out'] = c['out'][-2:]
+                    n = c['B'] * opzoo.prod(c['out']) * c['dim']
+                    c['grid'] = [rng.randint(-20, 20) / 8 for _ in range(n)]
+                    c.update({'interp': interp, 'pad': pad, 'align': align})
+                    out.append(c)
+    return out
+
+
 def gen_fourier_ops(rng, tier):
     from props import C03
     cs = C03.gen_fourier(rng, 'quick')[: (24 if tier == 'quick' else 36)]
@@ -248,6 +266,8 @@ FAMILIES = [
            theorem='C01_zeropad, C01_matrix, C01_sensitivity, C01_density_compensation, C01_cartesian_sampling, C01_finite_difference, C01_rearrange, C01_along_axis'),
     Family('expression_tree', gen_tree, impl_tree, lambda c: f'dense {_coq_tree(c["tree"])}', PREAMBLE, cmp_tree, oracle_tree,
            descr=lambda c: {'cls': 'tree'}, shard=40, theorem='C01_closure'),
+    Family('grid_sampling_modes', gen_grid_modes, impl_dense, None, '', None, oracle_adjoint, descr=descr,
+           theorem='(implementation-level identity G = F^H)'),
     Family('dense_adjoint', _gen_cls(['FastFourierOp', 'PCACompressionOp', 'GridSamplingOp', 'SliceProjectionOp'], 32, 600),
            impl_dense, None, '', None, oracle_adjoint, descr=descr, theorem='(implementation-level identity G = F^H)'),
     Family('wavelet_adjoint', gen_wavelets, impl_dense, None, '', None, oracle_adjoint, descr=descr,
